@@ -95,6 +95,10 @@ def monitor(n, acts, outs, fin):
         inslow = sum(1 for w in d["W"] if w.startswith("inwork:") and kinds.get(int(w[7:])) == "s")
         if inslow > d["sr"]:
             return ("slow-count", f"{inslow} workers inside slow work functions but slow_io_work_running={d['sr']}: {o}")
+        busy = sum(1 for w in d["W"] if w in ("got", "posted") or w.startswith("inwork:"))
+        if d["sr"] > busy:
+            return ("slow-leak", f"slow_io_work_running={d['sr']} but only {busy} workers hold a request (a slow slot leaked; "
+                                 f"queued lookups will not be started although capacity is free) after `{cmd}`: {o}")
         if not (0 <= d["idle"] <= n):
             return ("idle-count", f"idle_threads={d['idle']} outside 0..{n}: {o}")
         if c[0] == "can":
